@@ -943,6 +943,10 @@ func TestVerifGorpConcurrent(t *testing.T) {
 	if trials <= 0 {
 		trials = 2000
 	}
+	popTrials, _ := strconv.Atoi(os.Getenv("VERIF_POP_TRIALS"))
+	if popTrials <= 0 {
+		popTrials = trials / 4
+	}
 	ctx := context.Background()
 	type outc struct {
 		Kind   string `json:"kind"`
@@ -1013,8 +1017,8 @@ func TestVerifGorpConcurrent(t *testing.T) {
 		}
 		outs = append(outs, o)
 		// populate racing replicated writes
-		p := outc{Kind: "populate-remote", Mode: mode, Trials: trials / 4}
-		for it := 0; it < trials/4; it++ {
+		p := outc{Kind: "populate-remote", Mode: mode, Trials: popTrials}
+		for it := 0; it < popTrials; it++ {
 			w := &gWorld{ctx: ctx, mode: mode, txs: map[string]Tx{}, defs: &gDefs{}, stats: &gStats{}}
 			w.kvdb = memkv.New()
 			if mode == "ext" {
